@@ -346,6 +346,51 @@ func reTerm(what, pattern string) string {
 	return term(what, re)
 }
 
+// importValidation reports whether the body of `importLog` contains the calls
+// `<x>.Transaction.Postings.Validate()` and `<x>.RevertTransaction.Postings.Validate()`.
+func importValidation(path string) (created, reverted bool) {
+	fset := token.NewFileSet()
+	f, err := parser.ParseFile(fset, path, nil, 0)
+	if err != nil {
+		die("cannot parse %s: %v", path, err)
+	}
+	found := false
+	for _, d := range f.Decls {
+		fd, ok := d.(*ast.FuncDecl)
+		if !ok || fd.Name.Name != "importLog" || fd.Body == nil {
+			continue
+		}
+		found = true
+		ast.Inspect(fd.Body, func(n ast.Node) bool {
+			call, ok := n.(*ast.CallExpr)
+			if !ok {
+				return true
+			}
+			sel, ok := call.Fun.(*ast.SelectorExpr)
+			if !ok || sel.Sel.Name != "Validate" {
+				return true
+			}
+			ps, ok := sel.X.(*ast.SelectorExpr)
+			if !ok || ps.Sel.Name != "Postings" {
+				return true
+			}
+			if tx, ok := ps.X.(*ast.SelectorExpr); ok {
+				switch tx.Sel.Name {
+				case "Transaction":
+					created = true
+				case "RevertTransaction":
+					reverted = true
+				}
+			}
+			return true
+		})
+	}
+	if !found {
+		die("%s: func importLog not found", path)
+	}
+	return
+}
+
 func leanString(s string) string {
 	var sb strings.Builder
 	sb.WriteByte('"')
@@ -445,6 +490,10 @@ func main() {
 		names = append(names, strconv.Quote(o.name))
 	}
 	fmt.Fprintf(&out, "/-- the five literal-token rules in grammar-file order (first rule wins ties) -/\ndef lexerRuleOrder : List String := [%s]\n\n", strings.Join(names, ", "))
+	// does importLog validate the postings of the logs it replays? (controller_default.go)
+	created, reverted := importValidation(filepath.Join(repo, "internal/controller/ledger/controller_default.go"))
+	fmt.Fprintf(&out, "/-- `importLog` calls `payload.Transaction.Postings.Validate()` (NEW_TRANSACTION logs) -/\ndef importValidatesCreated : Bool := %v\n\n", created)
+	fmt.Fprintf(&out, "/-- `importLog` calls `payload.RevertTransaction.Postings.Validate()` (REVERTED_TRANSACTION logs) -/\ndef importValidatesReverted : Bool := %v\n\n", reverted)
 	out.WriteString("end Ledger.Generated.Grammar\n")
 	fmt.Print(out.String())
 }
